@@ -103,7 +103,7 @@ func scenarios() []*vexp.Scenario {
 		ex := model(&s.c, sh)
 		out = append(out, &vexp.Scenario{
 			Name: s.name, BoundDelta: s.delta,
-			Cfg:  vsched.Config{MaxSteps: 20000, MaxIdleFires: 4, SelectCost: 1, SwitchCost: 1},
+			Cfg: vsched.Config{MaxSteps: 20000, MaxIdleFires: 4, SelectCost: 1, SwitchCost: 1},
 			New: func() vexp.Exec { return &bExec{sc: &s, sh: sh, ex: ex} },
 		})
 	}
